@@ -542,7 +542,7 @@ impl ParserProp {
         let class2 = chance(s, 1, 4);
         let mut file = String::new();
         let (mut multi, mut comment, mut floaty) = (false, false, false);
-        let comment_text = |s: &mut dyn Src| -> String { format!("{} {}", pick(s, &["#", "%", "//"]), pick(s, &["comment", "x(1).", "note: a, b; c", "don't"])) };
+        let comment_text = |s: &mut dyn Src| -> String { format!("{} {}", pick(s, &["#", "%", "//"]), pick(s, &["comment", "x(1).", "note: a, b; c", "don't", "smiley :-)", "(see kings.txt", "case a) first,", "list [1, 2", "] closes nothing.", "50 % of # are // fine", "ends with ="])) };
         for r in &rules {
             if !damaged && chance(s, 1, 4) { file.push_str(&comment_text(s)); file.push('\n'); comment = true; }
             if chance(s, 1, 5) { file.push('\n'); }
